@@ -1,0 +1,32 @@
+//go:build verif
+
+// Contracts for the deductive verifier in /verif (gvc). Comment-only: compiled only under the build
+// tag `verif`, contains no code.
+package implements
+
+//@ func MissingPackageReport.GetCode
+//@   props C17 C10
+//@   ensures result == "IMPL01"
+//@   assigns nothing
+//@ func MissingPackageReport.GetPos
+//@   props C17 C10
+//@   ensures result == v.Pos
+//@   assigns nothing
+
+//@ func MissingInterfaceReport.GetCode
+//@   props C17 C10
+//@   ensures result == "IMPL02"
+//@   assigns nothing
+//@ func MissingInterfaceReport.GetPos
+//@   props C17 C10
+//@   ensures result == v.Pos
+//@   assigns nothing
+
+//@ func MissingMethodsReport.GetCode
+//@   props C17 C10
+//@   ensures result == "IMPL03"
+//@   assigns nothing
+//@ func MissingMethodsReport.GetPos
+//@   props C17 C10
+//@   ensures result == v.Pos
+//@   assigns nothing
